@@ -396,7 +396,25 @@ func diffLines(want, got []string) string {
 
 // the tar stream reader cannot carry sub-second precision beyond what the GNU format stores, nor
 // names that archive/tar cannot encode; restrict that leg to trees it can represent
-func tarStreamOK(root string) bool { return true }
+// and an extended attribute with an empty value cannot travel in a PAX record (an empty value means
+// "delete this keyword": archive/tar's reader drops it), so such a tree is not put through that leg
+func tarStreamOK(root string) bool {
+	ok := true
+	filepath.Walk(root, func(p string, info os.FileInfo, err error) error {
+		if err != nil {
+			return nil
+		}
+		if keys, err := xattr.LList(p); err == nil {
+			for _, k := range keys {
+				if v, err := xattr.LGet(p, k); err == nil && len(v) == 0 {
+					ok = false
+				}
+			}
+		}
+		return nil
+	})
+	return ok
+}
 
 func writeGnuTar(w io.Writer, root string) {
 	tw := gnutar.NewWriter(w)
